@@ -553,4 +553,434 @@ theorem int32_of_small (d : Nat) (h : d < 2^31) : (Int32.ofInt (toI (UInt32.ofNa
   show (Int32.ofInt ((UInt32.ofNat d).toNat : Int)).toInt = _
   rw [UInt32.toNat_ofNat', Nat.mod_eq_of_lt (by omega), Int32.toInt_ofInt_of_le (by omega) (by omega)]
 
+/-- the digit count proper, on an abstract table row -/
+theorem countQ_core (d0 dl thi tlo n : Nat) (C : U128) (hd0 : d0 ≤ 35) (hdl : dl ≤ 35) (hthi : thi < 2^64) (htlo : tlo < 2^64)
+    (hm : (if d0 ≠ 0 then d0 else if val128 C ≥ thi * 2 ^ 64 + tlo then dl + 1 else dl) = n) :
+    ∃ q, ((Except.ok (⟨UInt32.ofNat d0, UInt64.ofNat thi, UInt64.ofNat tlo, UInt32.ofNat dl⟩ : DecDigits) :
+        Except String DecDigits).bind fun v =>
+      if (Int32.ofInt (toI v.digits) == 0) = true then
+        if (decide (C.w1 > v.threshold_hi) || (C.w1 == v.threshold_hi && decide (C.w0 ≥ v.threshold_lo))) = true then
+          (Except.ok (Int32.ofInt (toI v.digits1) + 1) : Except String Int32)
+        else .ok (Int32.ofInt (toI v.digits1))
+      else .ok (Int32.ofInt (toI v.digits))) = .ok q ∧ q.toInt = (n : Int) := by
+  simp only [Except.bind]
+  have e0 := int32_of_small d0 (by omega)
+  have e1 := int32_of_small dl (by omega)
+  have hz : (Int32.ofInt (toI (UInt32.ofNat d0)) == 0) = decide (d0 = 0) := by
+    rw [Bool.eq_iff_iff, beq_iff_eq, decide_eq_true_eq, ← Int32.toInt_inj, e0]
+    show (d0 : Int) = 0 ↔ _
+    omega
+  rw [hz]
+  by_cases hd : d0 = 0
+  · rw [if_pos (by simpa using hd)]
+    rw [if_neg (by simpa using hd)] at hm
+    rw [Dec.C06GenFromInt.ge128, UInt64.toNat_ofNat', UInt64.toNat_ofNat', Nat.mod_eq_of_lt hthi, Nat.mod_eq_of_lt htlo]
+    by_cases ht : val128 C ≥ thi * 2 ^ 64 + tlo
+    · rw [if_pos ht] at hm
+      rw [if_pos (by simpa [val128] using ht)]
+      refine ⟨_, rfl, ?_⟩
+      rw [Int32.toInt_add, e1, ← hm, show (1 : Int32).toInt = 1 from rfl]
+      push_cast
+      exact Int.bmod_eq_of_le (by omega) (by omega)
+    · rw [if_neg ht] at hm
+      rw [if_neg (by simpa [val128] using ht)]
+      exact ⟨_, rfl, by rw [e1, hm]⟩
+  · rw [if_neg (by simpa using hd)]
+    rw [if_pos (by simpa using hd)] at hm
+    exact ⟨_, rfl, by rw [e0, hm]⟩
+
+/-- **the digit count block** (standalone): for every coefficient `0 < C < 2^113` (two words), the bit length by the `f64`
+trick, the `BID_NR_DIGITS` row and the threshold comparison return the number of decimal digits of `C`; no index is
+out of range. -/
+theorem countQ_spec (C : U128) (h0 : 0 < val128 C) (h1 : val128 C < 2^113) :
+    ∃ q, countQ C = .ok q ∧ q.toInt = (ndigits (val128 C) : Int) := by
+  have hne : val128 C ≠ 0 := by omega
+  have hi : (val128 C).log2 < 113 := (Nat.log2_lt hne).2 h1
+  have hlo : 2 ^ (val128 C).log2 ≤ val128 C := Nat.log2_self_le hne
+  have hb := nrBits_spec C h0 h1
+  have hidx : (nrBits C - 1).toNat = (val128 C).log2 := by
+    rw [UInt64.toNat_sub, hb, show (1 : UInt64).toNat = 1 from rfl]
+    omega
+  -- the digit counts in the row are small
+  have hn35 : ndigits (val128 C) ≤ 35 := (ndigits_le_iff h0).2 (Nat.lt_trans h1 (by decide))
+  have hdl : ndigitsSlow (2 ^ (val128 C).log2) ≤ 35 := by
+    have := Dec.TableFacts.ndigitsSlow_mono (Nat.pow_pos (by decide)) hlo
+    rw [← ndigits_eq_slow (val128 C)] at this
+    omega
+  have hthr : 10 ^ ndigitsSlow (2 ^ (val128 C).log2) < 2 ^ 128 :=
+    Nat.lt_of_le_of_lt (Nat.pow_le_pow_right (by decide) hdl) (by decide)
+  have hm := Dec.TableFacts.nrDigits_mechanism_ndigits h0 h1
+  unfold Dec.TableFacts.nrDigitsLookup at hm
+  simp only [Dec.TableFacts.BID_NR_DIGITS_getD _ _ hi (by decide : 0 < 4), Dec.TableFacts.BID_NR_DIGITS_getD _ _ hi (by decide : 1 < 4),
+    Dec.TableFacts.BID_NR_DIGITS_getD _ _ hi (by decide : 2 < 4), Dec.TableFacts.BID_NR_DIGITS_getD _ _ hi (by decide : 3 < 4),
+    Dec.TableFacts.nrRow, List.getD_cons_zero, List.getD_cons_succ] at hm
+  unfold countQ
+  rw [tblDD_nr _ (by rw [hidx]; exact hi), hidx]
+  refine countQ_core _ _ _ _ _ C ?_ hdl (by omega) (Nat.mod_lt _ (by decide)) hm
+  by_cases hz : (if ndigitsSlow (2 ^ (val128 C).log2) = ndigitsSlow (2 ^ ((val128 C).log2 + 1) - 1)
+      then ndigitsSlow (2 ^ (val128 C).log2) else 0) = 0
+  · omega
+  · rw [if_pos hz] at hm; omega
+
+/-! ## 4. Digit removal -/
+
+/-! ### `i32` arithmetic on small values is exact -/
+
+theorem i32_add (a b : Int32) (ha : -2^20 < a.toInt ∧ a.toInt < 2^20) (hb : -2^20 < b.toInt ∧ b.toInt < 2^20) :
+    (a + b).toInt = a.toInt + b.toInt := by
+  rw [Int32.toInt_add]; exact Int.bmod_eq_of_le (by omega) (by omega)
+
+theorem i32_sub (a b : Int32) (ha : -2^20 < a.toInt ∧ a.toInt < 2^20) (hb : -2^20 < b.toInt ∧ b.toInt < 2^20) :
+    (a - b).toInt = a.toInt - b.toInt := by
+  rw [Int32.toInt_sub]; exact Int.bmod_eq_of_le (by omega) (by omega)
+
+theorem i32_neg (a : Int32) (ha : -2^20 < a.toInt ∧ a.toInt < 2^20) : (-a).toInt = -a.toInt := by
+  rw [Int32.toInt_neg]; exact Int.bmod_eq_of_le (by omega) (by omega)
+
+/-- the exponent the code computes from the exponent word `E·2^49` -/
+theorem expOf_toInt (e : UInt64) (E : Nat) (hE : E < 2^14) (he : e.toNat = E * 2^49) : (expOf e).toInt = (E : Int) - 6176 := by
+  have hs : (e >>> 49).toNat = E := by
+    rw [UInt64.toNat_shiftRight, he, Nat.shiftRight_eq_div_pow]
+    show E * 2^49 / 2^49 = E
+    omega
+  unfold expOf
+  show (Int32.ofInt ((e >>> 49 - 6176).toNat : Int)).toInt = _
+  rw [UInt64.toNat_sub, hs, show (6176 : UInt64).toNat = 6176 from rfl, Int32.toInt_ofInt, Int.bmod_def]
+  simp only [Int32.size]
+  omega
+
+/-- `as u64` of a non-negative small `i32` -/
+theorem u64_of_i32 (a : Int32) (n : Nat) (h : a.toInt = n) : (UInt64.ofInt (toI a)).toNat = n := by
+  have := a.toInt_lt
+  show (UInt64.ofInt a.toInt).toNat = n
+  rw [h, ofInt_natCast64]
+  omega
+
+
+/-! ### reading the reciprocal and shift tables -/
+
+theorem getElem?_getD (t : List Nat) (j : Nat) (h : j < t.length) : t[j]? = some (t.getD j 0) := by
+  rw [List.getD_eq_getElem?_getD, List.getElem?_eq_getElem h]; rfl
+
+theorem entry_two (t : List Nat) (i : Nat) : Dec.TF.entry t 2 i = t.getD (i * 2 + 0) 0 + 2 ^ 64 * (t.getD (i * 2 + 1) 0 + 2 ^ 64 * 0) := rfl
+
+theorem ten2mk_length : Dec.Gen.BID_TEN2MK128.length = 68 := by decide
+theorem shiftright_length : Dec.Gen.BID_SHIFTRIGHT128.length = 34 := by decide
+
+/-- the words of `BID_TEN2MK128` are words; the shift counts by range of the row index -/
+theorem ten2mk_rows : (List.range 34).all (fun i =>
+    decide (Dec.Gen.BID_TEN2MK128.getD (i * 2 + 0) 0 < 2^64) && decide (Dec.Gen.BID_TEN2MK128.getD (i * 2 + 1) 0 < 2^64) &&
+    decide (i ≤ 2 → Dec.Gen.BID_SHIFTRIGHT128.getD i 0 = 0) &&
+    decide (3 ≤ i → i ≤ 21 → 1 ≤ Dec.Gen.BID_SHIFTRIGHT128.getD i 0 ∧ Dec.Gen.BID_SHIFTRIGHT128.getD i 0 ≤ 63) &&
+    decide (22 ≤ i → 64 ≤ Dec.Gen.BID_SHIFTRIGHT128.getD i 0 ∧ Dec.Gen.BID_SHIFTRIGHT128.getD i 0 ≤ 127)) = true := by
+  decide +kernel
+
+theorem ten2mk_row (i : Nat) (hi : i < 34) :
+    Dec.Gen.BID_TEN2MK128.getD (i * 2 + 0) 0 < 2^64 ∧ Dec.Gen.BID_TEN2MK128.getD (i * 2 + 1) 0 < 2^64 ∧
+    (i ≤ 2 → Dec.Gen.BID_SHIFTRIGHT128.getD i 0 = 0) ∧
+    (3 ≤ i → i ≤ 21 → 1 ≤ Dec.Gen.BID_SHIFTRIGHT128.getD i 0 ∧ Dec.Gen.BID_SHIFTRIGHT128.getD i 0 ≤ 63) ∧
+    (22 ≤ i → 64 ≤ Dec.Gen.BID_SHIFTRIGHT128.getD i 0 ∧ Dec.Gen.BID_SHIFTRIGHT128.getD i 0 ≤ 127) := by
+  have h := List.all_eq_true.1 ten2mk_rows i (List.mem_range.2 hi)
+  simp only [Bool.and_eq_true, decide_eq_true_eq] at h
+  obtain ⟨⟨⟨⟨a, b⟩, c⟩, d⟩, e⟩ := h
+  exact ⟨a, b, c, d, e⟩
+
+/-- `BID_TEN2MK128[i]`, `i < 34`: never out of range, and the two words are the entry `K_i` -/
+theorem tbl128_ten2mk (k : UInt64) (i : Nat) (hk : k.toNat = i) (hi : i < 34) :
+    ∃ t, tbl128 Dec.Gen.BID_TEN2MK128 k = .ok t ∧ val128 t = Dec.TF.entry Dec.Gen.BID_TEN2MK128 2 i := by
+  obtain ⟨a, b, _⟩ := ten2mk_row i hi
+  unfold tbl128
+  rw [hk, Nat.mul_comm 2 i, ← Nat.add_zero (i * 2), getElem?_getD _ _ (by rw [ten2mk_length]; omega), Nat.add_zero,
+    getElem?_getD _ _ (by rw [ten2mk_length]; omega)]
+  refine ⟨_, rfl, ?_⟩
+  rw [entry_two]
+  simp only [val128, UInt64.toNat_ofNat', Nat.add_zero] at a ⊢
+  rw [Nat.mod_eq_of_lt a, Nat.mod_eq_of_lt b]
+  omega
+
+/-- `BID_SHIFTRIGHT128[i]`, `i < 34` -/
+theorem tblI32_shift (k : UInt64) (i : Nat) (hk : k.toNat = i) (hi : i < 34) :
+    ∃ sh, tblI32 Dec.Gen.BID_SHIFTRIGHT128 k = .ok sh ∧ sh.toInt = (Dec.Gen.BID_SHIFTRIGHT128.getD i 0 : Nat) := by
+  have hs : Dec.Gen.BID_SHIFTRIGHT128.getD i 0 ≤ 127 := by
+    obtain ⟨_, _, c, d, e⟩ := ten2mk_row i hi
+    by_cases h1 : i ≤ 2
+    · have := c h1; omega
+    · by_cases h2 : i ≤ 21
+      · have := d (by omega) h2; omega
+      · have := e (by omega); omega
+  unfold tblI32
+  rw [hk, getElem?_getD _ _ (by rw [shiftright_length]; exact hi)]
+  refine ⟨_, rfl, ?_⟩
+  rw [UInt64.toInt64_ofNat', Int64.toInt_ofNat_of_lt (by omega), Int32.toInt_ofInt_of_le (by omega) (by omega)]
+
+
+/-! ### the reciprocal multiplication -/
+
+open Dec.TableFacts Dec.TF in
+/-- every reciprocal is strictly above the exact quotient (no power of ten divides a power of two) and is a 128-bit number -/
+theorem ten2mk_strict : (List.range 34).all (fun i =>
+    decide (2 ^ (128 + Dec.Gen.BID_SHIFTRIGHT128.getD i 0) < entry Dec.Gen.BID_TEN2MK128 2 i * 10 ^ (i + 1)) &&
+    decide (entry Dec.Gen.BID_TEN2MK128 2 i < 2 ^ 128)) = true := by
+  decide +kernel
+
+open Dec.TableFacts Dec.TF in
+/-- **error analysis of the reciprocal multiplication.**  Row `i` (`x = i + 1` digits to remove), `K` the tabulated
+reciprocal, `E = 128 + shift`: `K·10^x = 2^E + δ` with `0 < δ`, and for every `C < 10^35`, writing `C = q·10^x + r`:
+`(q + 1)·δ < K`, `⌊C·K / 2^E⌋ = q` and the discarded part is `C·K mod 2^E = q·δ + r·K`. -/
+theorem recip_core (i : Nat) (hi : i < 34) (C : Nat) (hC : C < 10 ^ 35) :
+    ∃ δ, entry Dec.Gen.BID_TEN2MK128 2 i * 10 ^ (i + 1) = 2 ^ (128 + Dec.Gen.BID_SHIFTRIGHT128.getD i 0) + δ ∧ 0 < δ ∧
+      entry Dec.Gen.BID_TEN2MK128 2 i < 2 ^ 128 ∧
+      (C / 10 ^ (i + 1) + 1) * δ < entry Dec.Gen.BID_TEN2MK128 2 i ∧
+      C * entry Dec.Gen.BID_TEN2MK128 2 i / 2 ^ (128 + Dec.Gen.BID_SHIFTRIGHT128.getD i 0) = C / 10 ^ (i + 1) ∧
+      C * entry Dec.Gen.BID_TEN2MK128 2 i % 2 ^ (128 + Dec.Gen.BID_SHIFTRIGHT128.getD i 0)
+        = C / 10 ^ (i + 1) * δ + C % 10 ^ (i + 1) * entry Dec.Gen.BID_TEN2MK128 2 i := by
+  have h := List.all_eq_true.1 ten2mk128_rows i (List.mem_range.2 hi)
+  have h' := List.all_eq_true.1 ten2mk_strict i (List.mem_range.2 hi)
+  simp only [rowOk, Bool.and_eq_true, decide_eq_true_eq] at h h'
+  obtain ⟨h1, h2⟩ := h
+  obtain ⟨h3, h4⟩ := h'
+  generalize entry Dec.Gen.BID_TEN2MK128 2 i = K at *
+  generalize 128 + Dec.Gen.BID_SHIFTRIGHT128.getD i 0 = E at *
+  have hP : 0 < 10 ^ (i + 1) := Nat.pow_pos (by decide)
+  generalize 10 ^ (i + 1) = P at *
+  have hE : 0 < 2 ^ E := Nat.pow_pos (by decide)
+  refine ⟨K * P - 2 ^ E, by omega, by omega, h4, ?_, ?_, ?_⟩
+  · have : C / P ≤ 10 ^ 35 / P := Nat.div_le_div_right (Nat.le_of_lt hC)
+    calc (C / P + 1) * (K * P - 2 ^ E) ≤ (10 ^ 35 / P + 1) * (K * P - 2 ^ E) := Nat.mul_le_mul_right _ (by omega)
+      _ < K := h2
+  all_goals
+    have hdm : P * (C / P) + C % P = C := Nat.div_add_mod C P
+    have hr : C % P < P := Nat.mod_lt _ hP
+    have hq : (C / P + 1) * (K * P - 2 ^ E) < K := by
+      have : C / P ≤ 10 ^ 35 / P := Nat.div_le_div_right (Nat.le_of_lt hC)
+      calc (C / P + 1) * (K * P - 2 ^ E) ≤ (10 ^ 35 / P + 1) * (K * P - 2 ^ E) := Nat.mul_le_mul_right _ (by omega)
+        _ < K := h2
+    generalize C / P = q at *
+    generalize C % P = r at *
+    have hK : K * P = 2 ^ E + (K * P - 2 ^ E) := by omega
+    generalize K * P - 2 ^ E = δ at *
+    have e1 : C * K = q * 2 ^ E + (q * δ + r * K) := by
+      calc C * K = (P * q + r) * K := by rw [hdm]
+        _ = q * (K * P) + r * K := by rw [Nat.add_mul, Nat.mul_comm P q, Nat.mul_assoc, Nat.mul_comm P K]
+        _ = q * (2 ^ E + δ) + r * K := by rw [hK]
+        _ = q * 2 ^ E + (q * δ + r * K) := by rw [Nat.mul_add, Nat.add_assoc]
+    have e2 : r * K + K ≤ 2 ^ E + δ := by
+      have : (r + 1) * K ≤ P * K := Nat.mul_le_mul_right K hr
+      rw [Nat.add_mul, Nat.one_mul, Nat.mul_comm P K, hK] at this
+      exact this
+    have e3 : q * δ + δ < K := by rw [Nat.add_mul, Nat.one_mul] at hq; exact hq
+    have e4 : q * δ + r * K < 2 ^ E := by omega
+  · rw [e1, Nat.mul_comm q (2 ^ E), Nat.mul_add_div hE, Nat.div_eq_of_lt e4, Nat.add_zero]
+  · rw [e1, Nat.mul_comm q (2 ^ E), Nat.mul_add_mod, Nat.mod_eq_of_lt e4]
+
+theorem shr128_aux (w3 w2 A B M : Nat) (hM : M = A * B) (hA : 0 < A) (h2 : w2 < M) :
+    (w3 / A) * M + (B * (w3 % A) + w2 / A) = (w3 * M + w2) / A := by
+  have e3 : w3 * M + w2 = A * ((w3 / A) * M + B * (w3 % A)) + w2 := by
+    have := Nat.div_add_mod w3 A
+    calc w3 * M + w2 = (A * (w3 / A) + w3 % A) * M + w2 := by rw [this]
+      _ = A * ((w3 / A) * M + B * (w3 % A)) + w2 := by rw [hM]; ring
+  rw [e3, Nat.mul_add_div hA]
+  omega
+
+/-- a 128-bit right shift by `1 ≤ s ≤ 63` done on two words -/
+theorem shr128 (w3 w2 s : Nat) (hs1 : 1 ≤ s) (hs2 : s ≤ 63) (h3 : w3 < 2^64) (h2 : w2 < 2^64) :
+    (w3 / 2^s) * 2^64 + ((w3 * 2^(64-s)) % 2^64 ||| w2 / 2^s) = (w3 * 2^64 + w2) / 2^s := by
+  have hAB : 2^64 = 2^s * 2^(64-s) := by rw [← Nat.pow_add]; congr 1; omega
+  have hA : 0 < 2^s := Nat.pow_pos (by decide)
+  have e1 : (w3 * 2^(64-s)) % 2^64 = (w3 % 2^s) * 2^(64-s) := by rw [hAB, Nat.mul_mod_mul_right]
+  have e2 : w2 / 2^s < 2^(64-s) := by
+    apply (Nat.div_lt_iff_lt_mul hA).2
+    rw [Nat.mul_comm, ← hAB]; exact h2
+  rw [e1, Nat.mul_comm (w3 % 2^s), ← Nat.two_pow_add_eq_or_of_lt e2]
+  exact shr128_aux w3 w2 _ _ _ hAB hA h2
+
+/-! ### assembling a result -/
+
+theorem sign_cases (S : UInt64) (s : Bool) (hS : S.toNat = if s then 2^63 else 0) :
+    (S ||| 0x3040000000000000).toNat = S.toNat + 6176 * 2^49 := by
+  cases s
+  · have : S = 0 := UInt64.toNat_inj.1 (by rw [hS]; rfl)
+    subst this; decide
+  · have : S = 0x8000000000000000 := UInt64.toNat_inj.1 (by rw [hS]; rfl)
+    subst this; decide
+
+/-- the result word pair `(r.w1 | sign | 0x3040…, r.w0)` is the canonical encoding of `±m·10^0`, `m` the value of `r` -/
+theorem mk_result (S : UInt64) (s : Bool) (hS : S.toNat = if s then 2^63 else 0) (r : U128) (m : Nat) (hm : val128 r = m)
+    (hlt : m < 2^113) : (⟨r.w0, r.w1 ||| (S ||| 0x3040000000000000)⟩ : U128) = ofBits (encode (.fin s m 0)) := by
+  have h0 := r.w0.toNat_lt
+  unfold val128 at hm
+  subst hm
+  have h1 : r.w1.toNat < 2^49 := by omega
+  apply eq_ofBits
+  rw [bitsOf_mk, UInt64.toNat_or, sign_cases S s hS, show ((0 : Int)) = ((6176 : Nat) : Int) - 6176 from by omega, encode_fin]
+  have hd : r.w1.toNat ||| (S.toNat + 6176 * 2^49) = r.w1.toNat + (S.toNat + 6176 * 2^49) := by
+    have : S.toNat + 6176 * 2^49 = 2^49 * (S.toNat / 2^49 + 6176) := by
+      rw [hS]; split <;> omega
+    rw [this, Nat.or_comm, ← Nat.two_pow_add_eq_or_of_lt h1]
+    omega
+  rw [hd, hS]
+  split <;> omega
+
+/-! ### the model side for finite non-zero operands -/
+
+theorem riD_neg_exp (mode : Mode) (s : Bool) (c E : Nat) (hE : E < 6176) :
+    riD mode (.fin s c ((E : Int) - 6176)) =
+      .fin s (roundInt mode s (c / 10 ^ (6176 - E)) (c % 10 ^ (6176 - E)) (10 ^ (6176 - E))) 0 := by
+  rw [riD_fin, C08.integral_rounded mode s c _ (by omega), show (-((E : Int) - 6176)).toNat = 6176 - E by omega]
+
+theorem riD_nonneg_exp (mode : Mode) (s : Bool) (c E : Nat) (hE : 6176 ≤ E) :
+    riD mode (.fin s c ((E : Int) - 6176)) = .fin s c ((E : Int) - 6176) := by
+  rw [riD_fin, C08.integral_unchanged mode s c _ (by omega)]
+
+theorem roundInt_rtz (s : Bool) (q r D : Nat) : roundInt .rtz s q r D = q := by
+  simp [roundInt, roundUp]
+
+/-- fewer digits than are to be removed: the quotient is zero -/
+theorem small_quot (c x : Nat) (h : ndigits c ≤ x) : c / 10 ^ x = 0 ∧ c % 10 ^ x = c := by
+  have h1 : c < 10 ^ x := Nat.lt_of_lt_of_le (lt_pow_ndigits c) (Nat.pow_le_pow_right (by decide) h)
+  exact ⟨Nat.div_eq_of_lt h1, Nat.mod_eq_of_lt h1⟩
+
+theorem ndigits_le_34 (c : Nat) (h : c < P34) : ndigits c ≤ 34 := by
+  rcases Nat.eq_zero_or_pos c with h0 | h0
+  · rw [h0, ndigits_zero]; omega
+  · exact (ndigits_le_iff h0).2 h
+
+/-! ### truncation -/
+
+/-- **digit removal of `bid128_round_integral_zero`**: for a coefficient `c < 10^34` and `1 ≤ x ≤ 33` digits to remove, the
+product with the tabulated reciprocal, shifted right as the code does it in its three word-position cases, is
+`⌊c / 10^x⌋` exactly; the result is assembled with the sign and exponent 0.  No table index is out of range. -/
+theorem truncMain_spec (C : U128) (S : UInt64) (exp : Int32) (f : UInt32) (s : Bool) (c x : Nat)
+    (hc : val128 C = c) (hlt : c < P34) (hx1 : 1 ≤ x) (hx2 : x ≤ 33) (hexp : exp.toInt = -(x : Int))
+    (hS : S.toNat = if s then 2^63 else 0) :
+    truncMain C S exp f = .ok (ofBits (encode (.fin s (c / 10 ^ x) 0)), f) := by
+  have hi : (-exp - 1).toInt = (x : Int) - 1 := by
+    rw [i32_sub _ _ (by rw [i32_neg _ (by omega)]; omega) (by decide), i32_neg _ (by omega), hexp]
+    show - -(x : Int) - 1 = _
+    omega
+  have hidx : (UInt64.ofInt (toI (-exp - 1))).toNat = x - 1 := u64_of_i32 _ _ (by rw [hi]; omega)
+  obtain ⟨t, ht, tv⟩ := tbl128_ten2mk _ (x - 1) hidx (by omega)
+  obtain ⟨v, hv, vv⟩ := mul_128x128_to_256_spec C t
+  obtain ⟨sh, hsh, shv⟩ := tblI32_shift _ (x - 1) hidx (by omega)
+  obtain ⟨δ, _, _, hK, _, hdiv, _⟩ := recip_core (x - 1) (by omega) c (Nat.lt_trans hlt (by decide))
+  obtain ⟨_, _, r1, r2, r3⟩ := ten2mk_row (x - 1) (by omega)
+  rw [show x - 1 + 1 = x by omega] at hdiv
+  rw [hc, tv] at vv
+  have hm : c / 10 ^ x < 2 ^ 113 := Nat.lt_of_le_of_lt (Nat.div_le_self _ _) (Nat.lt_trans hlt (by decide))
+  have h0 := v.w0.toNat_lt; have h1 := v.w1.toNat_lt; have h2 := v.w2.toNat_lt; have h3 := v.w3.toNat_lt
+  unfold val256 at vv
+  -- the product, divided by 2^128
+  have hhi : c * Dec.TF.entry Dec.Gen.BID_TEN2MK128 2 (x - 1) / 2 ^ 128 = v.w3.toNat * 2^64 + v.w2.toNat := by
+    rw [← vv]; omega
+  rw [Nat.pow_add, ← Nat.div_div_eq_div_mul, hhi] at hdiv
+  have c1 : (decide (-exp - 1 ≤ 2) = true) ↔ x - 1 ≤ 2 := by
+    rw [decide_eq_true_eq, Int32.le_iff_toInt_le, hi, show (2 : Int32).toInt = 2 from rfl]; omega
+  have c2 : (decide (-exp - 1 ≤ 21) = true) ↔ x - 1 ≤ 21 := by
+    rw [decide_eq_true_eq, Int32.le_iff_toInt_le, hi, show (21 : Int32).toInt = 21 from rfl]; omega
+  unfold truncMain
+  simp only [ht, hv, hsh, Except.bind]
+  generalize Dec.Gen.BID_SHIFTRIGHT128.getD (x - 1) 0 = sN at *
+  by_cases b1 : x - 1 ≤ 2
+  · rw [if_pos (c1.2 b1)]
+    rw [r1 b1, Nat.pow_zero, Nat.div_one] at hdiv
+    rw [mk_result S s hS ⟨v.w2, v.w3⟩ _ hdiv hm]
+  · rw [if_neg (fun h => b1 (c1.1 h))]
+    by_cases b2 : x - 1 ≤ 21
+    · rw [if_pos (c2.2 b2)]
+      obtain ⟨s1, s2⟩ := r2 (by omega) b2
+      have a1 : (UInt64.ofInt (toI sh)).toNat = sN := u64_of_i32 _ _ shv
+      have a2 : (UInt64.ofInt (toI (64 - sh))).toNat = 64 - sN :=
+        u64_of_i32 _ _ (by rw [i32_sub _ _ (by decide) (by omega), shv]; show (64 : Int) - _ = _; omega)
+      refine congrArg (fun r => Except.ok (r, f)) ?_
+      refine mk_result S s hS ⟨v.w3 <<< UInt64.ofInt (toI (64 - sh)) ||| v.w2 >>> UInt64.ofInt (toI sh),
+        v.w3 >>> UInt64.ofInt (toI sh)⟩ _ ?_ hm
+      rw [← hdiv, ← shr128 _ _ sN s1 s2 h3 h2]
+      simp only [val128, UInt64.toNat_or, UInt64.toNat_shiftLeft, UInt64.toNat_shiftRight, a1, a2,
+        Nat.shiftLeft_eq, Nat.shiftRight_eq_div_pow]
+      rw [Nat.mod_eq_of_lt (show sN < 64 by omega), Nat.mod_eq_of_lt (show 64 - sN < 64 by omega)]
+    · rw [if_neg (fun h => b2 (c2.1 h))]
+      obtain ⟨s1, s2⟩ := r3 (by omega)
+      have a1 : (UInt64.ofInt (toI (sh - 64))).toNat = sN - 64 :=
+        u64_of_i32 _ _ (by rw [i32_sub _ _ (by omega) (by decide), shv]; show _ - (64 : Int) = _; omega)
+      refine congrArg (fun r => Except.ok (r, f)) ?_
+      refine mk_result S s hS ⟨v.w3 >>> UInt64.ofInt (toI (sh - 64)), 0⟩ _ ?_ hm
+      rw [← hdiv]
+      simp only [val128, UInt64.toNat_shiftRight, a1, Nat.shiftRight_eq_div_pow, UInt64.toNat_zero, Nat.zero_mul, Nat.zero_add]
+      rw [Nat.mod_eq_of_lt (show sN - 64 < 64 by omega)]
+      have e : 2 ^ sN = 2 ^ 64 * 2 ^ (sN - 64) := by rw [← Nat.pow_add]; congr 1; omega
+      rw [e, ← Nat.div_div_eq_div_mul]
+      congr 1
+      omega
+
+
+theorem mk_small (S : UInt64) (s : Bool) (hS : S.toNat = if s then 2^63 else 0) (n : UInt64) (hn : n.toNat < 2^49) :
+    (⟨n, S ||| 0x3040000000000000⟩ : U128) = ofBits (encode (.fin s n.toNat 0)) := by
+  have := mk_result S s hS ⟨n, 0⟩ n.toNat (by simp [val128]) (by omega)
+  rw [UInt64.zero_or] at this
+  exact this
+
+theorem mk_zero (S : UInt64) (s : Bool) (hS : S.toNat = if s then 2^63 else 0) :
+    (⟨0, S ||| 0x3040000000000000⟩ : U128) = ofBits (encode (.fin s 0 0)) :=
+  mk_small S s hS 0 (by decide)
+
+theorem riFlags_fin (f : UInt32) (s : Bool) (c : Nat) (e : Int) : riFlags f (.fin s c e) = f := rfl
+
+/-- the tests on the exponent word -/
+theorem expword_le (e : UInt64) (E : Nat) (he : e.toNat = E * 2^49) (k : UInt64) (K : Nat) (hk : k.toNat = K * 2^49) :
+    (decide (e ≤ k) = true) ↔ E ≤ K := by
+  rw [decide_eq_true_eq, UInt64.le_iff_toNat_le, he, hk]; omega
+
+/-- **`bid128_round_integral_zero` on finite non-zero operands** -/
+theorem rizFin_spec (x : U128) (f : UInt32) (s : Bool) (c E : Nat) (hv : FinView x s c E) :
+    rizFin x f (x.w1 &&& c_MASK_SIGN) (x.w1 &&& c_MASK_EXP) ⟨x.w0, x.w1 &&& c_MASK_COEFF⟩
+      = .ok (ofBits (encode (riD .rtz (decode (bitsOf x)))), riFlags f (decode (bitsOf x))) := by
+  obtain ⟨hdec, hpos, hlt, hE, hS, he, hc, henc⟩ := hv
+  have h34 := ndigits_le_34 c hlt
+  rw [hdec, riFlags_fin]
+  unfold rizFin
+  by_cases t1 : E ≤ 6142
+  · rw [if_pos ((expword_le _ E he 0x2ffc000000000000 6142 (by decide)).2 t1), riD_neg_exp _ _ _ _ (by omega),
+      roundInt_rtz, (small_quot c (6176 - E) (by omega)).1, mk_zero _ s hS]
+  · rw [if_neg (fun h => t1 ((expword_le _ E he 0x2ffc000000000000 6142 (by decide)).1 h))]
+    obtain ⟨q, hq, qv⟩ := countQ_spec ⟨x.w0, x.w1 &&& c_MASK_COEFF⟩ (by rw [hc]; exact hpos)
+      (by rw [hc]; exact Nat.lt_trans hlt (by decide))
+    rw [hc] at qv
+    have hexp := expOf_toInt _ E hE he
+    simp only [hq, Except.bind]
+    by_cases t2 : 6176 ≤ E
+    · rw [if_pos (by rw [decide_eq_true_eq, ge_iff_le, Int32.le_iff_toInt_le, hexp]; show (0 : Int) ≤ _; omega),
+        riD_nonneg_exp _ _ _ _ t2, ← henc]
+      exact congrArg (fun r => Except.ok (r, f)) (Dec.C06GenFromInt.ofBits_bitsOf x).symm
+    · rw [if_neg (by rw [decide_eq_true_eq, ge_iff_le, Int32.le_iff_toInt_le, hexp]; show ¬ (0 : Int) ≤ _; omega),
+        riD_neg_exp _ _ _ _ (by omega), roundInt_rtz]
+      have hsum : (q + expOf (x.w1 &&& c_MASK_EXP)).toInt = (ndigits c : Int) + ((E : Int) - 6176) := by
+        rw [i32_add _ _ (by omega) (by omega), qv, hexp]
+      by_cases t3 : 6176 < ndigits c + E
+      · rw [if_pos (by rw [decide_eq_true_eq, gt_iff_lt, Int32.lt_iff_toInt_lt, hsum]; show (0 : Int) < _; omega)]
+        exact truncMain_spec _ _ _ f s c (6176 - E) hc hlt (by omega) (by omega) (by rw [hexp]; omega) hS
+      · rw [if_neg (by rw [decide_eq_true_eq, gt_iff_lt, Int32.lt_iff_toInt_lt, hsum]; show ¬ (0 : Int) < _; omega),
+          (small_quot c (6176 - E) (by omega)).1, mk_zero _ s hS]
+
+/-- **`bid128_round_integral_zero`** (round to integral, toward zero), ALL 128-bit patterns, every incoming status word:
+the result is the canonical encoding of `toIntegralD .rtz` of the decoded operand (NaN: the quieted canonical NaN;
+infinity: the canonical infinity; zero and every non-canonical finite encoding: the zero of the same sign with exponent
+`max(e, 0)`; exponent ≥ 0: the operand; otherwise `±⌊c / 10^(−e)⌋` with exponent 0, the sign kept also when the result is
+zero); the status word gets `invalid` or-ed in iff the operand is a signalling NaN, nothing else; the routine never panics. -/
+theorem round_integral_zero_spec (x : U128) (f : UInt32) :
+    bid128_round_integral_zero x f =
+      .ok (ofBits (encode (riD .rtz (decode (bitsOf x)))), riFlags f (decode (bitsOf x))) := by
+  rw [riz_unfold]
+  rcases frontEnd_cases .rtz x f (rizFin x f) with h | ⟨s, c, E, hv, h⟩
+  · exact h
+  · rw [h]; exact rizFin_spec x f s c E hv
+
+
+-- −123.456 (coefficient 123456, exponent −3) ↦ −123; 0.999 ↦ +0; a signalling NaN with payload 5 and inexact already raised
+example : bid128_round_integral_zero ⟨123456, 0xb03a000000000000⟩ 0 = .ok (⟨123, 0xb040000000000000⟩, 0) := by
+  rw [round_integral_zero_spec]; decide +kernel
+example : bid128_round_integral_zero ⟨999, 0x303a000000000000⟩ 0 = .ok (⟨0, 0x3040000000000000⟩, 0) := by rfl
+example : bid128_round_integral_zero ⟨5, 0x7e00000000000000⟩ 0x20 = .ok (⟨5, 0x7c00000000000000⟩, 0x21) := by rfl
+-- 34 nines with exponent −33 (the third word-position case: 33 digits removed) ↦ 9
+example : bid128_round_integral_zero ⟨0x378d8e63ffffffff, 0x2fffed09bead87c0⟩ 0 = .ok (⟨9, 0x3040000000000000⟩, 0) := by rfl
+
 end Dec.C08GenRoundIntegral
